@@ -266,15 +266,36 @@ def send(F, R):
     ok = src in ('&(*out)', '(*out)', 'out') and 'parameter::Parameter::<T>::value(' in vol
     R.check(ok, 'B.C02.send', 'post-fader', 'the send is fed from %s with volume %s (must be the post-fader `out` and the route volume)' % (src, vol[:120]),
             detail={'source': src, 'volume': vol[:120]}, where=tb.where(bb))
+    # a missing send track skips this route only: the None edge goes back to the loop header, never out of the loop
+    from ..rules import switch_on_call
+    gm0 = calls_to(tb, 'backend::resources::ResourceStorage::<T>::get_mut', suffix=False)
+    if gm0:
+        from ..rules import option_edges
+        oe = option_edges(tb, gm0[0][0])
+        L = loop_of(tb, gm0[0][0])
+        okc = False
+        if oe is not None and L is not None:
+            none_t = oe[1]
+            if none_t is not None:
+                reach = tb.reachable([none_t], stop=[L['header']])
+                okc = L['header'] in reach and all(x in L['blocks'] for x in reach)
+        R.check(okc, 'B.C02.send', 'missing-continues',
+                'a send route whose send track no longer exists does not simply continue with the next route (the remaining live routes would lose their signal)',
+                detail='None => continue', where=tb.where(gm0[0][0]))
     # a missing send track is skipped, not written
     gm = calls_to(tb, 'backend::resources::ResourceStorage::<T>::get_mut', suffix=False)
     R.check(len(gm) == 1 and tb.dominates(gm[0][0], bb), 'B.C02.send', 'lookup',
             'add_input is not guarded by the generation-checked lookup of the send track', detail='get_mut(id) ≺ add_input')
 
 
-def ibs(F, R):
-    """All scratch buffers are allocated with internal_buffer_size; children get temp_buffer[..out.len()] or out itself."""
-    n = 0
+import re as _re
+# vec![Frame::ZERO; <exactly the internal buffer size>]
+SIZE_RE = _re.compile(r"^std::vec::from_elem\(const frame::Frame::ZERO, (internal_buffer_size|\(\*self\)\.internal_buffer_size|self\.internal_buffer_size)\)$")
+
+
+def scratch_allocations(F):
+    """[(buffer name, function, description of the allocated value, where)] for every scratch buffer"""
+    out = []
     for b in F.bodies:
         if b.krate != 'kira':
             continue
@@ -282,20 +303,24 @@ def ibs(F, R):
             if s['k'] != 'assign':
                 continue
             rv = s['rv']
-            targets = []
             if rv['k'] == 'agg' and rv.get('ak') == 'adt':
                 for fn, op in zip(rv['fields'], rv['ops']):
-                    if fn in ('temp_buffer', 'input') and rv['adt'] in (
-                            'backend::renderer::Renderer', MIXER, TRACK, MAIN, SEND):
-                        targets.append((rv['adt'] + '.' + fn, describe(b, op, depth=8)))
-            elif s['lhs']['p'] and pretty_place(b, s['lhs']) == '(*self).temp_buffer' and b.path.endswith('Delay as effect::Effect>::init'):
-                targets.append(('effect::delay::Delay.temp_buffer', describe(b, rv.get('op', {}), depth=8) if rv['k'] == 'use' else '?'))
-            for name, d in targets:
-                n += 1
-                ok = 'from_elem' in d and 'internal_buffer_size' in d and 'frame::Frame::ZERO' in d
-                R.check(ok, 'B.C02.ibs', 'alloc:' + name + '@' + b.path,
-                        'scratch buffer %s is allocated as %s, not vec![Frame::ZERO; internal_buffer_size]' % (name, d[:160]),
-                        detail={'buffer': name, 'in': b.path, 'size': d[:120]}, where=b.where(bb))
+                    if fn in ('temp_buffer', 'input') and rv['adt'] in ('backend::renderer::Renderer', MIXER, TRACK, MAIN, SEND):
+                        out.append((rv['adt'] + '.' + fn, b, describe(b, op, depth=8), bb))
+            elif s['lhs']['p'] and pretty_place(b, s['lhs']) == '(*self).temp_buffer' and 'effect::delay' in b.path:
+                out.append(('effect::delay::Delay.temp_buffer', b, describe(b, rv.get('op', {}), depth=8) if rv['k'] == 'use' else '?', bb))
+    return out
+
+
+def ibs(F, R):
+    """All scratch buffers are allocated with internal_buffer_size; children get temp_buffer[..out.len()] or out itself."""
+    n = 0
+    for name, b, d, bb in scratch_allocations(F):
+        n += 1
+        ok = bool(SIZE_RE.match(d))
+        R.check(ok, 'B.C02.ibs', 'alloc:' + name + '@' + b.path,
+                'scratch buffer %s is allocated as %s, not vec![Frame::ZERO; internal_buffer_size]: slices of up to internal_buffer_size '
+                'frames are indexed into it' % (name, d[:160]), detail={'buffer': name, 'in': b.path, 'size': d[:120]}, where=b.where(bb))
     R.floor('B.C02.ibs.alloc', n, 7)
     # pass-through: slices handed down are temp_buffer[..out.len()] or the incoming out
     m = 0
